@@ -3,7 +3,7 @@ import casadi as ca
 from .backend import ufun, unknown
 
 
-def _base(method="MS", T=1.0, N=2, pval=None, solver="ipopt", extra=None, free=False):
+def _base(method="MS", T=1.0, N=2, pval=None, solver="ipopt", extra=None, free=False, cons=True):
     from rockit import Ocp, MultipleShooting, SingleShooting, DirectCollocation, FreeTime
     ocp = Ocp(T=FreeTime(T) if free else T)
     x = ocp.state(2)
@@ -11,8 +11,9 @@ def _base(method="MS", T=1.0, N=2, pval=None, solver="ipopt", extra=None, free=F
     p = ocp.parameter()
     v = ocp.variable()
     ocp.set_der(x, ufun("f", 2, [x, u, ocp.t, p, v]))
-    ocp.subject_to(ocp.at_t0(x) == 0)
-    ocp.subject_to(ufun("c", 1, [x, u]) <= 1)
+    if cons:
+        ocp.subject_to(ocp.at_t0(x) == 0)
+        ocp.subject_to(ufun("c", 1, [x, u]) <= 1)
     ocp.add_objective(ocp.at_tf(ufun("m", 1, [x])))
     ocp.add_objective(ocp.integral(ufun("l", 1, [x, u])))
     if pval is not None:
@@ -104,6 +105,29 @@ def histories():
         b, t = _base(m, pval=pv()); b.clear_constraints(); b.subject_to(b.at_t0(t["x"]) == 1)
         return a, b
     H["clear_constraints-after-transcription"] = clear_then_new
+
+    def clear_every_grid(m):
+        # constraints on every grid the method can place, then cleared: the final specification has none of them
+        def declare(o, s):
+            o.subject_to(ufun("ci", 1, [s["x"], s["u"]]) <= 2, grid="integrator")
+            o.subject_to(ufun("cc", 1, [s["x"]]) <= 3, grid="control", include_first=False)
+            o.subject_to(o.at_tf(ufun("cf", 1, [s["x"]])) <= 4)
+            if m == "DC":
+                o.subject_to(ufun("cr", 1, [s["x"], s["u"]]) <= 5, grid="integrator_roots")
+        a, s = _base(m, pval=pv()); declare(a, s); a.clear_constraints(); a.subject_to(a.at_t0(s["x"]) == 1)
+        b, t = _base(m, pval=pv(), cons=False); b.subject_to(b.at_t0(t["x"]) == 1)
+        return a, b
+    H["clear_constraints-removes-constraints-of-every-grid"] = clear_every_grid
+
+    def clear_every_grid_after(m):
+        def declare(o, s):
+            o.subject_to(ufun("ci", 1, [s["x"], s["u"]]) <= 2, grid="integrator")
+            if m == "DC":
+                o.subject_to(ufun("cr", 1, [s["x"], s["u"]]) <= 5, grid="integrator_roots")
+        a, s = _base(m, pval=pv()); declare(a, s); a._transcribed; a.clear_constraints(); a.subject_to(ufun("c", 1, [s["x"], s["u"]]) <= 1)
+        b, t = _base(m, pval=pv(), cons=False); b.subject_to(ufun("c", 1, [t["x"], t["u"]]) <= 1)
+        return a, b
+    H["clear_constraints-of-every-grid-after-transcription"] = clear_every_grid_after
 
     def method_twice(m):
         from rockit import SingleShooting
